@@ -189,7 +189,7 @@ def Pipe.liveTs (p : Pipe) : List Nat :=
   (p.sys.hist.map (·.ts)).filter (fun t => !p.rejected.contains t)
 
 structure PInv (d : Bool) (n : Nat) (p : Pipe) : Prop where
-  reach : Reach false d n p.sys
+  reach : OReach false d n p.sys
   /-- exactly the lock holder is between `lock` and `unlock` -/
   lockIff : ∀ tid, (p.cph tid).holds = true ↔ p.lockHolder = some tid
   /-- the history of handed-out timestamps = everything enqueued so far (in channel order),
@@ -221,7 +221,7 @@ theorem setPh_other (p : Pipe) (tid t : Nat) (c : CPhase) (h : t ≠ tid) : p.se
   simp [Pipe.setPh, h]
 
 theorem PInv.init (d : Bool) (n : Nat) : PInv d n (Pipe.opened d n) := by
-  refine ⟨Reach.init, ?_, by simp [Pipe.opened, Pipe.enq, Pipe.stampedTs, Pipe.liveTs, Sys.opened],
+  refine ⟨OReach.init, ?_, by simp [Pipe.opened, Pipe.enq, Pipe.stampedTs, Pipe.liveTs, Sys.opened],
     by simp [Pipe.opened], by simp [Pipe.opened, Pipe.enq], by simp [Pipe.opened],
     ⟨[], by simp [Pipe.opened]⟩, by simp [Pipe.opened], by simp [Pipe.opened],
     by simp [Pipe.opened, Sys.opened], by simp [Pipe.opened]⟩
@@ -284,7 +284,7 @@ theorem PReach.inv {d : Bool} {n : Nat} {p : Pipe} (h : PReach d n p) : PInv d n
             (by intro t e; subst e; simp [Pipe.sysAllowed] at hal)
             (by intro t e; subst e; simp [Pipe.sysAllowed] at hal)
             (by intro t u e; subst e; simp [Pipe.sysAllowed] at hal) hs
-          refine ⟨Reach.step l ih.reach hs, ih.lockIff, ?_, ?_, ?_, ?_, ih.memFlat, ih.idle, ih.sigEq, ?_, ?_⟩
+          refine ⟨OReach.step l ih.reach hs, ih.lockIff, ?_, ?_, ?_, ?_, ih.memFlat, ih.idle, ih.sigEq, ?_, ?_⟩
           · have := ih.histEnq
             simp only [Pipe.liveTs, hfr.1] at this ⊢; exact this
           · intro t ht; simp only [hfr.1, hfr.2]; exact ih.rejHist t ht
@@ -335,7 +335,7 @@ theorem PReach.inv {d : Bool} {n : Nat} {p : Pipe} (h : PReach d n p) : PInv d n
             simp only [Option.some.injEq] at hstep
             subst hstep
             obtain ⟨hk1, hk2⟩ := phase_facts_keep ih tid .idle (by intro _ _ h; cases h) (by intro _ h; cases h)
-            refine ⟨Reach.step _ ih.reach hs, lockIff_release p tid .idle rfl ih.lockIff hholder, ?_, ?_, ?_, ?_,
+            refine ⟨OReach.step _ ih.reach hs, lockIff_release p tid .idle rfl ih.lockIff hholder, ?_, ?_, ?_, ?_,
               ih.memFlat, ih.idle, ih.sigEq, ?_, ?_⟩
             · have := ih.histEnq
               rw [hst0] at this
@@ -354,7 +354,7 @@ theorem PReach.inv {d : Bool} {n : Nat} {p : Pipe} (h : PReach d n p) : PInv d n
               obtain ⟨e, he, ee⟩ := List.mem_map.mp (ih.rejHist _ hm).1
               have := (hI.histLt e he).2
               omega
-            refine ⟨Reach.step _ ih.reach hs,
+            refine ⟨OReach.step _ ih.reach hs,
               lockIff_keep p tid _ rfl ih.lockIff hholder, ?_, ?_, ?_, ?_,
               ih.memFlat, ih.idle, ih.sigEq, ?_, ?_⟩
             · have := ih.histEnq
@@ -435,7 +435,7 @@ theorem PReach.inv {d : Bool} {n : Nat} {p : Pipe} (h : PReach d n p) : PInv d n
           have hlt : ∀ a ∈ p.enq.map (·.ts), a < ts := by
             intro a ha
             exact (List.pairwise_append.mp hsorted).2.2 a ha ts (List.mem_singleton.mpr rfl)
-          refine ⟨Reach.step _ ih.reach hs, lockIff_release p tid .idle rfl ih.lockIff hholder, ?_, ?_, ?_, ?_,
+          refine ⟨OReach.step _ ih.reach hs, lockIff_release p tid .idle rfl ih.lockIff hholder, ?_, ?_, ?_, ?_,
             ih.memFlat, ih.idle, ih.sigEq, ?_, ?_⟩
           · -- the live timestamps lose exactly `ts`
             have e1 : (p.sys.hist.map (·.ts)).filter (fun t => !(p.rejected ++ [ts]).contains t) =
@@ -576,7 +576,7 @@ theorem PReach.inv {d : Bool} {n : Nat} {p : Pipe} (h : PReach d n p) : PInv d n
               subst e
               have := (ih.lockIff t).mpr hl
               rw [hcp] at this; simp [CPhase.holds] at this
-            refine ⟨Reach.step _ ih.reach hs, ?_, ?_, ?_, ?_, ?_, ih.memFlat, ih.idle, ih.sigEq, ?_, ?_⟩
+            refine ⟨OReach.step _ ih.reach hs, ?_, ?_, ?_, ?_, ?_, ih.memFlat, ih.idle, ih.sigEq, ?_, ?_⟩
             · intro t
               by_cases ht : t = tid
               · subst ht
